@@ -161,7 +161,7 @@ PROPS["C08"] = {
     "modelled": WHOLE_FILE_MODELLED,
     "level_text": 'Lean theorems: project level, for every dependency graph and whatever a pass computes: two successful runs over the same sources and inputs, started from different contents of the generated files and under different schedules, finish exactly the same set of files (the dependency closure of the inputs) and leave every output with the same value (builds_are_a_function_of_sources). Pass level: a build / only-if-needed pass run from two file systems that differ only at generated paths (stale, truncated, arbitrary bytes, absent) yields the same verdict and the same bytes at every path, and building twice equals building once (relational proof through the refinement machine = parse/eval/render); opening an output in build mode forgets whatever the path held; a successful pass ends with exactly the fresh bytes; after a successful temp write the target holds exactly the new content whatever it held before, and an up-to-date temp file is left alone. On the implementation: every generated path pre-set independently to absent / stale / empty / truncated / cut inside a multi-byte character / random bytes / right+tail, build and needed-build, build twice, SIGKILLed CLI build followed by a rebuild; full-tree equality with the reference build.',
     "design_ref": '5 C08',
-    "level_note": "The project-level theorem is over the abstract worker model with RenderLocal (a pass depends only on the outputs of its declared dependencies). For the concrete preprocessor the pass-level statement is proved relationally (pass_is_a_function_of_sources, leftovers_at_generated_paths_irrelevant, build_twice_eq_once: two runs of the same source text from file systems that differ at generated paths give the same verdict and the same bytes everywhere) under the explicit side condition that no block reads a path while it is still stale (Safe) and no dependency lookup probes a stale path - the condition is executable (srcSafeB, theorems *_where_checked) and the model driver evaluates it on every source of every generated tree of this job (counts `theorem_side_condition_*` in the evidence: it held for all of them); the composition of the two levels (RenderLocal instantiated by runPass over whole projects) is tied by the M7 pre-state enumeration, not proved. Crash timing is sampled (random SIGKILL delays), covered in the model by 'any bytes at generated paths'.",
+    "level_note": "The project-level theorem is over the abstract worker model with RenderLocal (a pass depends only on the outputs of its declared dependencies). For the concrete preprocessor the pass-level statement is proved relationally (pass_is_a_function_of_sources, leftovers_at_generated_paths_irrelevant, build_twice_eq_once: two runs of the same source text from file systems that differ at generated paths give the same verdict and the same bytes everywhere) under the explicit side condition that no block reads a path while it is still stale (Safe) and no dependency lookup probes a stale path - the condition is executable (srcSafeB, theorems *_where_checked) and the model driver evaluates it on every source of every generated tree of this job (counts `theorem_side_condition_*` in the evidence: it held for all of them); Whole projects: whole_project_leftovers_irrelevant / whole_project_same_result / whole_project_build_twice_eq_once are proved over the concrete model of Txtpp::run (input resolution, scans, coordinator, every pass, dependencies included) along the sequential reference schedule, under the executable side condition projStale (first-pass aware: a first pass owes nothing after the dependency directive it stops at); the driver evaluates that condition and the theorems' conclusions on every generated project (counts `whole-project-theorem:*` in the evidence). Other schedules of the concrete passes: C02 over the abstract worker model plus the schedule jobs. Crash timing is sampled (random SIGKILL delays), covered in the model by 'any bytes at generated paths'.",
     "technique": 'Lean 4 proof (sink and temp-rule lemmas) + pre-state enumeration + differential correspondence',
     "assumptions": ['generated paths hold regular files or nothing', 'commands are deterministic'],
 }
@@ -173,7 +173,7 @@ PROPS["C09"] = {
     "modelled": WHOLE_FILE_MODELLED,
     "level_text": "Lean theorems: in needed mode an output whose bytes are already correct is returned untouched (same file system value, same touch set), a stale or missing one is written, and verdict and bytes at every path equal those of a normal build's done; opening touches nothing; no mode rewrites a temp file whose content is already correct while stale ones end correct; project level: a successful needed run and a successful normal run finish the same files with the same contents (the mode does not enter what a pass computes). On the implementation: per generated file up to date / stale (longer, shorter, same length, non-UTF-8, other) / missing; bytes equal a normal build in a scratch copy, (inode, mtime) preserved for correct files; the CLI flag -N is mapped to this mode (binary vs library on identical trees).",
     "design_ref": '5 C09',
-    "level_note": 'The CLI mapping -N -> InMemoryBuild (and -n, verify, clean, -r, -j) is checked on the binary by the CLI-flags job: same tree through the library with the Config and through the binary with the flags.',
+    "level_note": 'Whole project: needed_project_vs_build_project / needed_project_eq_build_project are proved over the concrete model of Txtpp::run (input resolution, scans, coordinator, all passes, dependencies included) along the sequential reference schedule under the executable side condition projStale(trNeeded) - evaluated by the driver on the clean, the fully built and the partly stale tree of every generated project (counts `whole-project-theorem:needed=*` in the evidence). The CLI mapping -N -> InMemoryBuild (and -n, verify, clean, -r, -j) is checked on the binary by the CLI-flags job: same tree through the library with the Config and through the binary with the flags.',
     "technique": 'Lean 4 proof (needed sink = build sink on bytes, no-touch lemmas) + history-based differential correspondence',
     "assumptions": ['commands are deterministic'],
 }
